@@ -86,6 +86,10 @@ where
     pub fn verif_calibrate_image(&self) -> bool {
         self.calibrate_image
     }
+    /// Whether a reset sequence that did not get through is still to be repeated.
+    pub fn verif_reset_pending(&self) -> bool {
+        self.reset_pending
+    }
 }
 
 impl<RK, DLY> LoRa<RK, DLY>
